@@ -55,6 +55,15 @@ def main():
             rc, out = sh('/venv/bin/python -m pytest -q -p no:cacheprovider -n 8 --timeout=900 odl 2>&1 | tail -3',
                          env=dict(base_env, PYTHONPATH=scratch), cwd=scratch, timeout=3600)
             res['suite_with_change'] = out.strip().splitlines()[-1] if out.strip() else ''
+            if 'failed' in res['suite_with_change']:
+                # the suite has one randomised geometry test that fails now and then on the unchanged
+                # tree too: a failure is only believed if it repeats
+                rc, out = sh('/venv/bin/python -m pytest -q -p no:cacheprovider -n 8 --timeout=900 odl 2>&1 '
+                             '| grep -E "^(FAILED|ERROR)|passed|failed" | tail -8',
+                             env=dict(base_env, PYTHONPATH=scratch), cwd=scratch, timeout=3600)
+                res['suite_first_run'] = res['suite_with_change']
+                res['suite_with_change'] = out.strip().splitlines()[-1] if out.strip() else ''
+                res['suite_rerun_failures'] = [l for l in out.splitlines() if l.startswith(('FAILED', 'ERROR'))]
         det = {}
         for c in checks:
             for tier in (['quick', 'thorough'] if '--thorough' in args else ['quick']):
